@@ -671,3 +671,47 @@ Proof.
     constructor; [repeat split|]. constructor; [constructor; [reflexivity|constructor]|constructor].
   - vm_compute. split; [reflexivity|]. split; [reflexivity|]. discriminate.
 Qed.
+
+(* ---------- round 4: the Tempo v1 API (TempoService.Search / Query / Values, tempo.SQLIndexQuery.String as modelled by C13 in
+   model/ScansTempo.v over Sql.v trees).  Tag keys and values, the trace id and the tag of a values request are values: requests with the
+   same operators, limits and window give statements with the same structure, for ALL tag lists. *)
+From Qryn Require model.Scans model.ScansTempo model.SqlPiecesTempo proofs.TempoEraseProofs.
+
+Theorem tempo_v1_statements_are_value_independent : forall (c c' : ScansTempo.tv1_case) p,
+  ScansTempo.tv_db c = ScansTempo.tv_db c' -> ScansTempo.tv_cluster c = ScansTempo.tv_cluster c' ->
+  ScansTempo.tv_from c = ScansTempo.tv_from c' -> ScansTempo.tv_to c = ScansTempo.tv_to c' ->
+  TempoEraseProofs.treq_variant (ScansTempo.tv_req c) (ScansTempo.tv_req c') ->
+  pieces (ScansTempo.tv1_select c) false = Some p -> pok QN p = true ->
+  exists p', pieces (ScansTempo.tv1_select c') false = Some p' /\ pok QN p' = true /\ shape p' = shape p /\
+    render (ScansTempo.tv1_select c) false = Some (flat p) /\ render (ScansTempo.tv1_select c') false = Some (flat p') /\
+    skeleton (lex (flat p')) = skeleton (lex (flat p)) /\
+    lex (flat p') = etoks QN p' /\ List.length (rvalues p') = List.length (rvalues p).
+Proof. exact TempoEraseProofs.tempo_v1_value_independent. Qed.
+Print Assumptions tempo_v1_statements_are_value_independent.
+
+Theorem tempo_index_query_is_value_independent : forall db dist tags tags' f t mn mx lim v2 q p,
+  Forall2 SqlPiecesTempo.tag_variant tags tags' ->
+  ScansTempo.index_query db dist tags f t mn mx lim v2 = Some q -> pieces q false = Some p -> pok QN p = true ->
+  exists q' p', ScansTempo.index_query db dist tags' f t mn mx lim v2 = Some q' /\ pieces q' false = Some p' /\ pok QN p' = true /\
+    shape p' = shape p /\ skeleton (lex (flat p')) = skeleton (lex (flat p)) /\ lex (flat p') = etoks QN p' /\
+    List.length (rvalues p') = List.length (rvalues p).
+Proof. exact TempoEraseProofs.tempo_index_query_value_independent. Qed.
+Print Assumptions tempo_index_query_is_value_independent.
+
+(* hypotheses met: the search svc="zqxmark" x!="y" against svc="' OR 1=1 --" x!="\": same operators; the statement passes pok with 8 values *)
+Example tempo_variant_example :
+  let mk := fun tags => {| ScansTempo.tv_id := 0%Z; ScansTempo.tv_db := "qryn"; ScansTempo.tv_cluster := false;
+                           ScansTempo.tv_from := 1700000000000000000%Z; ScansTempo.tv_to := 1700003600000000000%Z;
+                           ScansTempo.tv_req := ScansTempo.TSearch tags 20%Z 0%Z 0%Z false; ScansTempo.tv_sql := "" |} in
+  let t := fun k op v => {| ScansTempo.tg_key := k; ScansTempo.tg_op := op; ScansTempo.tg_val := v |} in
+  let c := mk [t "svc" ScansTempo.TgEq "zqxmark"; t "x" ScansTempo.TgNeq "y"] in
+  let c' := mk [t "sv'c" ScansTempo.TgEq "' OR 1=1 --"; t "x\" ScansTempo.TgNeq "\"] in
+  TempoEraseProofs.treq_variant (ScansTempo.tv_req c) (ScansTempo.tv_req c') /\
+  match pieces (ScansTempo.tv1_select c) false with
+  | Some p => pok QN p = true /\ List.length (rvalues p) = 8%nat
+  | None => False
+  end.
+Proof.
+  split; [|vm_compute; split; reflexivity].
+  cbn. split; [|auto]. constructor; [reflexivity|]. constructor; [reflexivity|constructor].
+Qed.
